@@ -15,5 +15,19 @@ CHECKS = [
              "Deep copies of subtrees that list a unit twice (memo sharing) are outside the model."},
 ]
 
+CHECKS.append(
+    {"property_id": "C17",
+     "technique": "Lean 4 theorems over the reals about formulas regenerated from the source by an ast->Lean translator + formula/oracle correspondence",
+     "text": "The hook implementations for equivalent rectangle/radius, hydrostatic and von Mises stress, thermal diffusivity / "
+             "heat penetration (profile and roll) and the draught/spread/elongation coefficient families are translated from "
+             "/repo to Lean terms on every run; PyrollProps/C17.lean proves over the reals: rectangle area and ratio, radius area, "
+             "mean stress, von Mises value / all permutations / hydrostatic zero / uniaxial |s|, k = a*rho*c, e^2 = k*rho*c, "
+             "relative = coefficient-1, log = log(coefficient), product of the three coefficients = 1 and log sum = 0, pass strain. "
+             "Each generated term is also evaluated over Float and compared with the python function; the oracle checks the "
+             "identities and the chord bounds/integrals on real Profile objects and solved passes. Partial: chord properties "
+             "(shapely intersections) are numerical checks, not theorems.",
+     "note": "Trusted: Lean kernel, standard axioms, the translator (cross-checked by Float evaluation against the python "
+             "functions), IEEE rounding (theorems are over the reals; float checks use rtol 1e-9), shapely geometry."})
+
 _PENDING = "machinery for this property is not built yet in this round (planned: Lean proof per DESIGN.md section 5); not claimed until its check exists"
 NOT_APPLICABLE = [{"property_id": f"C{n:02d}", "reason": _PENDING} for n in range(1, 21) if f"C{n:02d}" not in {c["property_id"] for c in CHECKS}]
